@@ -63,7 +63,14 @@ class Ctx:
         if z3.is_true(t):
             return
         self.pc.append(t)
-        self.solver.add(t)
+        if not has_quantifier(t):
+            # the feasibility solver only sees the quantifier-free part of the path condition: fewer constraints can
+            # only make more paths feasible (sound), and z3 then answers in milliseconds instead of timing out
+            self.solver.add(t)
+
+    def add_axiom(self, t):
+        """quantified background fact: part of every obligation's hypotheses, not of the feasibility checks"""
+        self.pc.append(t)
 
     def feasible(self, extra=None):
         r = self.solver.check(*([extra] if extra is not None else []))
@@ -95,7 +102,8 @@ class Ctx:
         self.decisions.append(v)
         c = t if v else z3.Not(t)
         self.pc.append(c)
-        self.solver.add(c)
+        if not has_quantifier(c):
+            self.solver.add(c)
         return v
 
     # -- obligations
@@ -112,6 +120,21 @@ class Ctx:
              "decisions": list(self.decisions)}
         )
         return status
+
+
+def has_quantifier(t):
+    seen = set()
+    stack = [t]
+    while stack:
+        e = stack.pop()
+        if z3.is_quantifier(e):
+            return True
+        i = e.get_id()
+        if i in seen:
+            continue
+        seen.add(i)
+        stack.extend(e.children())
+    return False
 
 
 def discharge(pc, goal, timeout_ms=10000):
@@ -704,9 +727,13 @@ class SymInt(_Num):
         return _arith(o, self, "-")
 
     def __mul__(self, o):
+        if isinstance(o, list) and len(o) == 1:
+            return ConstSeq(o[0], self)
         return _arith(self, o, "*")
 
     def __rmul__(self, o):
+        if isinstance(o, list) and len(o) == 1:
+            return ConstSeq(o[0], self)  # [x] * n with symbolic n
         return _arith(o, self, "*")
 
     def __truediv__(self, o):
@@ -787,3 +814,18 @@ def model_value(model, term):
     if z3.is_false(v):
         return False
     return str(v)
+
+
+class ConstSeq:
+    """[x] * n for symbolic n: a list of n copies of x"""
+
+    _pretend = (list,)
+
+    def __init__(self, value, n):
+        self.value, self.n = value, n
+
+    def _sym_len(self):
+        return self.n
+
+    def __getitem__(self, k):
+        return self.value
